@@ -222,6 +222,7 @@ func checkC05(c *Ctx) {
 
 	// --- key schedule linear transform L' and tau in functions reachable from NewCipher
 	c05KeySchedule(c, ksFuncs, sboxT)
+	c05ScheduleOut(c)
 
 	// --- G-C05-keylen
 	c05KeyLen(c, newCipher, ksFuncs)
@@ -1123,7 +1124,7 @@ func c05Endian(c *Ctx, f *ssa.Function, load bool) {
 					break
 				}
 				// idx = 4*wordidx + k with sh = 24-8k
-				d := affAdd(affineOf(idx), affScale(wa, 4), -1)
+				d := affNormInd(affAdd(affineOf(idx), affScale(wa, 4), -1))
 				if len(d.coef) != 0 || d.k < 0 || d.k > 3 || sh != 24-8*d.k {
 					ok4 = false
 					break
@@ -1144,7 +1145,7 @@ func c05Endian(c *Ctx, f *ssa.Function, load bool) {
 				return
 			}
 			total++
-			d := affAdd(affineOf(ia.Index), affScale(affineOf(widx), 4), -1)
+			d := affNormInd(affAdd(affineOf(ia.Index), affScale(affineOf(widx), 4), -1))
 			if len(d.coef) == 0 && d.k >= 0 && d.k <= 3 && int64(lane) == 3-d.k {
 				good++
 			} else {
@@ -1203,6 +1204,9 @@ func lenProbeSucceeds(f *ssa.Function, param ssa.Value, n int64, depth int) bool
 		return true
 	}
 	isLen := func(v ssa.Value) bool {
+		if v == param && isIntType(param.Type()) {
+			return true // the probed length itself, handed to a helper as an integer
+		}
 		call, ok := v.(*ssa.Call)
 		if !ok {
 			return false
@@ -1227,7 +1231,7 @@ func lenProbeSucceeds(f *ssa.Function, param ssa.Value, n int64, depth int) bool
 			return false
 		}
 		for j, a := range call.Call.Args {
-			if a == param && j < len(sc.Params) {
+			if (a == param || isLen(a)) && j < len(sc.Params) {
 				return !lenProbeSucceeds(sc, sc.Params[j], n, depth+1)
 			}
 		}
@@ -1344,5 +1348,125 @@ func c05TableSites(c *Ctx, tlane map[string]int, ksFuncs map[*ssa.Function]bool)
 	}
 	if n == 0 {
 		c.Undecided("K-C05-wiring", "sm4", "T-table lookup sites", "none found", token.NoPos)
+	}
+}
+
+// c05ScheduleOut: the round keys handed to the cipher are rk[i] = K[i+4], i = 0..31 — the word the key-schedule step
+// produces in iteration i. Decided on the store/return shape of generateSubKeys: the step's result is stored at
+// S[i+d] inside the 32-iteration loop and the function returns S[d : d+32] (d = 0 with a 32-word S returned whole).
+// Returning S[0:32] of a 36-word K array hands out K0..K31: the first four round keys are the masked user key.
+func c05ScheduleOut(c *Ctx) {
+	rule := "K-C05-schedule"
+	f := c.Fn("sm4", "generateSubKeys")
+	if f == nil {
+		c.Undecided(rule, "sm4.generateSubKeys", "round keys returned", "function not found", token.NoPos)
+		return
+	}
+	// the step: a call inside a loop whose result is stored to an element of a made slice
+	type site struct {
+		st   *ssa.Store
+		base ssa.Value
+		d    int64
+		ind  induction
+	}
+	var sites []site
+	instrsOf(f, func(_ *ssa.BasicBlock, in ssa.Instruction) {
+		st, ok := in.(*ssa.Store)
+		if !ok {
+			return
+		}
+		ia, ok := st.Addr.(*ssa.IndexAddr)
+		if !ok {
+			return
+		}
+		call, ok := st.Val.(*ssa.Call)
+		if !ok || call.Call.StaticCallee() == nil || call.Call.StaticCallee().Pkg != f.Pkg {
+			return
+		}
+		a := affineOf(ia.Index)
+		if len(a.coef) != 1 {
+			return
+		}
+		for v, k := range a.coef {
+			phi, isPhi := v.(*ssa.Phi)
+			if !isPhi || k != 1 {
+				return
+			}
+			ind, ok := inductionOf(phi)
+			if !ok {
+				return
+			}
+			sites = append(sites, site{st, ia.X, a.k, ind})
+		}
+	})
+	if len(sites) != 1 {
+		c.Undecided(rule, fname(f), "round keys returned", fmt.Sprintf("%d stores of a step result into a slice element indexed by a loop counter", len(sites)), f.Pos())
+		return
+	}
+	s := sites[0]
+	hi, okB := loopBound(s.ind)
+	if !okB || s.ind.init != 0 || s.ind.step != 1 || hi != 32 {
+		c.Violated(rule, fname(f), "32 schedule steps", fmt.Sprintf("the loop that stores the round keys runs from %d in steps of %d to %d; the schedule has exactly 32 steps", s.ind.init, s.ind.step, hi), s.st.Pos())
+		return
+	}
+	// make([]uint32, N) with constant N is `new [N]uint32` sliced whole in go/ssa
+	var mk ssa.Value
+	n := int64(-1)
+	switch x := s.base.(type) {
+	case *ssa.MakeSlice:
+		if k, isK := constInt(x.Len); isK {
+			mk, n = x, k
+		}
+	case *ssa.Slice:
+		if al, ok := x.X.(*ssa.Alloc); ok && x.Low == nil {
+			if pt, ok := al.Type().Underlying().(*types.Pointer); ok {
+				if at, ok := pt.Elem().Underlying().(*types.Array); ok {
+					if x.High == nil {
+						mk, n = x, at.Len()
+					} else if k, isK := constInt(x.High); isK && k == at.Len() {
+						mk, n = x, k
+					}
+				}
+			}
+		}
+	}
+	nret := 0
+	for _, b := range f.Blocks {
+		ret, ok := b.Instrs[len(b.Instrs)-1].(*ssa.Return)
+		if !ok || len(ret.Results) != 1 {
+			continue
+		}
+		nret++
+		c.Evals++
+		lo, hiR := int64(0), n
+		v := ret.Results[0]
+		if sl, ok := v.(*ssa.Slice); ok && v != s.base {
+			v = sl.X
+			if sl.Low != nil {
+				k, isK := constInt(sl.Low)
+				if !isK {
+					lo = -1
+				} else {
+					lo = k
+				}
+			}
+			if sl.High != nil {
+				k, isK := constInt(sl.High)
+				if !isK {
+					hiR = -1
+				} else {
+					hiR = k
+				}
+			}
+		}
+		if v != s.base || mk == nil || n < 0 || lo < 0 || hiR < 0 {
+			c.Undecided(rule, fname(f), "round keys returned", "the returned value is not a constant window of the slice the steps fill", ret.Pos())
+			continue
+		}
+		c.Check(lo == s.d && hiR == s.d+32, rule, fname(f), "round keys returned", fmt.Sprintf("step i is stored at [i+%d]; the function returns [%d:%d]", s.d, lo, hiR),
+			fmt.Sprintf("step i stores K[i+4] at index i+%d but the function returns elements [%d:%d]: the round keys are shifted against the schedule (rk[i] must be the word produced by step i)", s.d, lo, hiR), ret.Pos())
+	}
+	if nret == 0 {
+		c.Undecided(rule, fname(f), "round keys returned", "no return found", f.Pos())
 	}
 }
